@@ -742,7 +742,8 @@ class CtxAwareTransformer(NodeTransformer):
         """Handle visiting a import statement."""
         for name in node.names:
             if name.asname is None:
-                self.ctxadd(name.name)
+                # ``import os.path`` binds ``os``
+                self.ctxadd(name.name.partition(".")[0])
             else:
                 self.ctxadd(name.asname)
         return node
